@@ -385,7 +385,8 @@ PROPS["C18"] = _tx("C18", ["C18_receiver_initial", "C18_receiver_oneway", "C18_c
     " 'up to its limits' (termination of the closure wait by the ACK/inactivity limits) is C03's.")
 
 PROPS["C08"] = _tx("C08", ["C08_queue_initial", "C08_queue_invariant", "C08_requests_inside_scope", "C08_nak_fits",
-                           "C08_exactly_what_is_missing", "C08_deferred_no_unsolicited_nak", "C08_immediate_gap_requested"], ["recv", "segments"],
+                           "C08_exactly_what_is_missing", "C08_deferred_no_unsolicited_nak", "C08_immediate_gap_requested",
+                           "C08_immediate_expired_requests_all"], ["recv", "segments"],
     "Proof on the receive-transaction model (acknowledged mode), for every operation sequence: the NAK queue holds only "
     "non-empty ranges and the 0-0 marker (the marker only while metadata is missing); every request of a NAK PDU lies inside "
     "its scope and the PDU fits segment size + 1; after EOF the computed list is exactly the complement of the held bytes in "
